@@ -169,6 +169,34 @@ def gen_macro_table(loader, check, replay_on=True):
     check.ob("macro-table#no entry without a reviewed prototype", "all entries", [], not extra, detail=f"entries without prototype in spec/hexagon.py: {extra}")
 
 
+def gen_data_pins(loader, check, replay_on=True, what=("noped", "routines")):
+    """Data obligations: the no-op list and the bundled sub-routine sources are the reviewed ones (spec/bundled_data.py, T-QEMU).  An
+    instruction added to the no-op list is translated to `return NOP();` whatever its behaviour says; a changed routine body changes
+    what every caller computes - neither can be seen by contracts on the compiler's code, only on its data."""
+    import json
+    import os
+    from spec import bundled_data as bd
+    if "noped" in what:
+        with open(os.path.join(loader.repo, "Resources/Hexagon/noped_insns.json")) as f:
+            nop = json.load(f)["noped"]
+        extra, missing = sorted(set(nop) - set(bd.NOPED)), sorted(set(bd.NOPED) - set(nop))
+        check.ob("noped_insns#data: only reviewed instructions are compiled as no-op", "noped_insns.json", [], not extra,
+                 detail=f"listed as no-op without review: {extra}", replay=("catalog.noped", lambda mdl, extra=extra: {"names": extra}) if replay_on and extra else None)
+        check.ob("noped_insns#data: every reviewed no-op is still listed", "noped_insns.json", [], not missing, detail=f"no longer listed: {missing}")
+        check.instances_declared += 1
+        check.instances_generated += 1
+    if "routines" in what:
+        with open(os.path.join(loader.repo, "Resources/Hexagon/sub_routines.json")) as f:
+            sr = json.load(f)["sub_routines"]
+        for name in sorted(set(sr) | set(bd.SUB_ROUTINES)):
+            a, b = sr.get(name), bd.SUB_ROUTINES.get(name)
+            diff = [k for k in ("return_type", "params", "code") if (a or {}).get(k) != (b or {}).get(k)]
+            check.ob("sub_routines#data: the bundled routine is the reviewed transcription (return type, parameters, body)", name, [], not diff,
+                     detail=f"differs from the reviewed copy in {diff}")
+            check.instances_declared += 1
+            check.instances_generated += 1
+
+
 def run_inst(check, loader, name, inst, setup, run, post, contracts=None, frame=True):
     check.instances_declared += 1
 
@@ -615,3 +643,32 @@ def _gen_misc_nodes(loader, check, replay_on=True):
             if cls == "PostfixIncDec":
                 check.ob("Hybrid.il_init_var#declared-at-most-once", pi, pc, i2 == "")
         run_inst(check, loader, "Effect.il_init_var", cls, setup, run, post)
+
+
+try:
+    from pyvc import replay as _replay
+
+    @_replay.register("catalog.noped")
+    def replay_noped(a):
+        c = irkit.real_compiler()
+        import io
+        import contextlib
+        out = []
+        with contextlib.redirect_stdout(io.StringIO()), contextlib.redirect_stderr(io.StringIO()):
+            c.preprocessor.load_insn_behavior()
+        from rzilcompiler.Parser import Parser
+        for n in a["names"][:3]:
+            beh = c.preprocessor.behaviors.get(n)
+            if not beh:
+                out.append(f"{n}: not in the shortcode")
+                continue
+            with contextlib.redirect_stdout(io.StringIO()), contextlib.redirect_stderr(io.StringIO()):
+                parsed = Parser().parse({n: beh})
+                try:
+                    r = c.transform_insn(n, parsed[n])
+                    out.append(f"{n}: behaviour {beh[0][:80]!r} is compiled to {r.rzil}")
+                except Exception as e:
+                    out.append(f"{n}: {type(e).__name__}")
+        return any("return NOP();" in o for o in out), "; ".join(out)
+except Exception:      # pragma: no cover
+    pass
